@@ -34,7 +34,19 @@ class _Lazy(ast.NodeTransformer):
         self.generic_visit(node)
         if isinstance(node.func, ast.Name) and node.func.id == "implies" and len(node.args) == 2:
             return ast.BoolOp(op=ast.Or(), values=[ast.UnaryOp(op=ast.Not(), operand=node.args[0]), node.args[1]])
+        if isinstance(node.func, ast.Name) and node.func.id == "old" and len(node.args) == 1:
+            # old(E): E read in the pre-state: every free name that the adapter snapshotted (__pre__) is taken from the snapshot
+            return _PreNames().visit(node.args[0])
         return node
+
+
+class _PreNames(ast.NodeTransformer):
+    def visit_Name(self, node):
+        if not isinstance(node.ctx, ast.Load):
+            return node
+        return ast.IfExp(test=ast.Compare(left=ast.Constant(node.id), ops=[ast.In()], comparators=[ast.Name("__pre__", ast.Load())]),
+                         body=ast.Subscript(value=ast.Name("__pre__", ast.Load()), slice=ast.Constant(node.id), ctx=ast.Load()),
+                         orelse=ast.Name(node.id, ast.Load()))
 
 
 def compile_spec(text, mode="eval", filename="<contract>"):
@@ -119,7 +131,9 @@ def evaluate(ct, kwargs, adapter=None):
         else:
             result = fn(**args)
         out["result"] = result
+        pre = args.pop("__pre__", None) if isinstance(args, dict) else None
     except Exception as e:
+        pre = args.pop("__pre__", None) if isinstance(args, dict) else None
         out["outcome"] = "raise"
         out["exception"] = type(e).__name__
         out["message"] = str(e)[:200]
@@ -133,6 +147,7 @@ def evaluate(ct, kwargs, adapter=None):
                 env = dict(ns)
                 env.update(old)
                 env["old"] = lambda x: x
+                env["__pre__"] = pre if pre is not None else {}
                 try:
                     if not spec_eval(text, env):
                         out["violated"].append(f"raises:{allowed[0]} only-if")
@@ -143,6 +158,7 @@ def evaluate(ct, kwargs, adapter=None):
     env.update(old)           # contracts speak about parameters at entry ...
     env["result"] = result
     env["old"] = lambda x: x
+    env["__pre__"] = pre if pre is not None else {}      # adapter-chosen pre-state snapshots of mutated parameters (see old(E))
     env["now"] = args         # ... mutable arguments after the call are available as now['name']
     for exc, cond in ct.raises.items():
         if isinstance(cond, str) and cond != "True" and not cond.startswith("maybe"):
